@@ -247,11 +247,25 @@ func runC03(t *testing.T, planAny any, res *simnet.Result) {
 				for {
 					c, err := li.Accept()
 					if err != nil {
-						return
+						// a connection that failed before it became a stream (an abandoned dial) is reported here too;
+						// a server keeps accepting until its listener is closed
+						if strings.Contains(err.Error(), "listener closed") {
+							return
+						}
+						w.Count("probe_accept_error", 1)
+						time.Sleep(time.Millisecond)
+						continue
+					}
+					if os.Getenv("VERIF_DEBUG") != "" {
+						fmt.Fprintf(os.Stderr, "DBG %v accepted from %v\n", w.Now(), c.RemoteAddr())
 					}
 					go func(c *netceptor.Conn) {
 						first := make([]byte, 1)
-						if _, err := io.ReadFull(c, first); err != nil || first[0] != 'M' {
+						_, err := io.ReadFull(c, first)
+						if os.Getenv("VERIF_DEBUG") != "" {
+							fmt.Fprintf(os.Stderr, "DBG %v first byte from %v: %q err=%v\n", w.Now(), c.RemoteAddr(), first, err)
+						}
+						if err != nil || first[0] != 'M' {
 							_ = c.Close()
 							return
 						}
@@ -355,7 +369,11 @@ func runC03(t *testing.T, planAny any, res *simnet.Result) {
 					for {
 						c, err := sink.Accept()
 						if err != nil {
-							return
+							if strings.Contains(err.Error(), "listener closed") {
+								return
+							}
+							time.Sleep(time.Millisecond)
+							continue
 						}
 						go func() { _, _ = io.Copy(io.Discard, c) }()
 					}
